@@ -125,6 +125,11 @@ func (p c08) Gen(c *run.Ctx, idx int) (json.RawMessage, error) {
 	if r.Intn(3) == 0 {
 		cs.Cfg.Planner, cs.Cfg.TTLms = "cached", 3600000
 	}
+	if r.Intn(4) == 0 {
+		// small downstream batches through one shared client per service: chunked and plain calls of different
+		// operations run through the same MultiOpQueryer at the same time
+		cs.Cfg.MaxBatch, cs.Cfg.SharedQueryer = 1+r.Intn(2), true
+	}
 	var gated []int
 	seenGate := map[string]bool{}
 	for i, g := range cs.Gated {
